@@ -3,11 +3,37 @@
 From BV Require Import Base Status Rollup Runner RunnerSteps RunnerQuiet RunnerSelect RunnerEq RunnerSelectMore.
 From BVGen Require Import StatusTable.
 
-(* a de-selected scenario: no hook, no step call; skipped with all steps skipped
+(* what decides whether a scenario runs (Scenario.should_run): the tag expression on its effective tags, and
+   should_skip - the explicit exclusion flag, set by element.skip() on the element or on anything around it.
+   The model's exclusions are those of the documented idiom: the feature's before_feature hook calls
+   element.skip() on every element carrying an exclusion tag (c_excl); they are in force inside a feature
+   once that hook has been called (items_cfg). *)
+Theorem a_scenario_runs_iff_selected_by_tags_and_not_excluded :
+  forall cfg eff, sel cfg eff = c_expr cfg eff && negb (existsb (c_excl cfg) eff).
+Proof. reflexivity. Qed.
+Print Assumptions a_scenario_runs_iff_selected_by_tags_and_not_excluded.
+
+Theorem without_exclusions_the_tag_expression_alone_decides :
+  forall cfg eff, (forall t, c_excl cfg t = false) -> sel cfg eff = c_expr cfg eff.
+Proof. exact sel_without_exclusions. Qed.
+Print Assumptions without_exclusions_the_tag_expression_alone_decides.
+
+Theorem exclusion_is_inherited :
+  forall cfg own anc, excluded cfg anc = true -> sel cfg (own ++ anc) = false.
+Proof. exact sel_excluded. Qed.
+Print Assumptions exclusion_is_inherited.
+
+Theorem exclusions_need_the_hook_to_have_run :
+  forall cfg hooks_called t,
+    hooks_called && c_hooks cfg HBeforeFeature = false -> c_excl (items_cfg cfg hooks_called) t = false.
+Proof. exact items_cfg_off. Qed.
+Print Assumptions exclusions_need_the_hook_to_have_run.
+
+(* a de-selected or excluded scenario: no hook, no step call; skipped with all steps skipped
    (untested if the run was already aborted when it was reached) *)
 Theorem unselected_scenario_is_silent_and_skipped :
   forall cfg st id all_steps oe eff own,
-    c_expr cfg eff = false ->
+    sel cfg eff = false ->
     run_scenario cfg st id all_steps oe eff own =
     (st,
      mkScenRes id
@@ -22,7 +48,7 @@ Print Assumptions unselected_scenario_is_silent_and_skipped.
 
 (* whole run: every step call and every before/after_scenario hook belongs to a scenario (or
    outline row) whose effective tags - own + rule + feature, rows: outline + examples block -
-   satisfy the expression *)
+   satisfy the expression and that was not excluded (feature_sel_ids: inside a feature the exclusions in force) *)
 Theorem executed_scenarios_are_exactly_selected_ones :
   forall cfg fs rs verdict ab evs,
     run_model cfg fs = (rs, verdict, ab, evs) -> scoped (sel_ids cfg fs) evs = true.
@@ -31,22 +57,43 @@ Print Assumptions executed_scenarios_are_exactly_selected_ones.
 
 Theorem selected_scenario_runs :
   forall cfg st id all_steps oe eff own st' res fld ev,
-    c_expr cfg eff = true -> c_dry cfg = false -> c_hooks cfg HBeforeScenario = true ->
+    sel cfg eff = true -> c_dry cfg = false -> c_hooks cfg HBeforeScenario = true ->
     run_scenario cfg st id all_steps oe eff own = (st', res, fld, ev) ->
     In (EHook HBeforeScenario id (c_faults cfg HBeforeScenario id)) ev.
 Proof. exact selected_scenario_runs_before_hook. Qed.
 Print Assumptions selected_scenario_runs.
 
-(* a rule none of whose scenarios is selected ends skipped, calls nothing *)
+(* a rule none of whose scenarios is selected, or that was excluded, ends skipped, calls nothing *)
 Theorem rule_without_selected_scenario_is_skipped :
   forall cfg st r anc inh fhb,
     aborted st = false ->
-    rule_should_run cfg anc r = false ->
+    rule_should_run cfg anc r && negb (excluded cfg (r_tags r ++ anc)) = false ->
     forallb (sitem_nonempty (inh ++ opt_steps (r_bg r))) (r_items r) = true ->
     exists res ev, run_rule cfg st r anc inh fhb = (st, res, false, ev) /\
       rr_status res = skipped /\ rr_hook_failed res = false /\ allq ev = true.
 Proof. exact unselected_rule_is_skipped. Qed.
 Print Assumptions rule_without_selected_scenario_is_skipped.
+
+Theorem an_excluded_rule_is_skipped :
+  forall cfg st r anc inh fhb,
+    aborted st = false ->
+    excluded cfg (r_tags r ++ anc) = true ->
+    forallb (sitem_nonempty (inh ++ opt_steps (r_bg r))) (r_items r) = true ->
+    exists res ev, run_rule cfg st r anc inh fhb = (st, res, false, ev) /\
+      rr_status res = skipped /\ rr_hook_failed res = false /\ allq ev = true.
+Proof. exact excluded_rule_is_skipped. Qed.
+Print Assumptions an_excluded_rule_is_skipped.
+
+(* everything inside an excluded feature is skipped and calls nothing *)
+Theorem inside_an_excluded_feature_everything_is_skipped :
+  forall cfg bg hb f st,
+    aborted st = false ->
+    excluded cfg (f_tags f) = true ->
+    forallb (fitem_nonempty bg) (f_items f) = true ->
+    exists rs ev, run_fitems cfg st bg hb (f_tags f) (f_items f) false = (st, rs, false, ev) /\
+      forallb (fun r => status_eqb (fitem_status r) skipped) rs = true /\ allq ev = true.
+Proof. exact excluded_feature_items_are_skipped. Qed.
+Print Assumptions inside_an_excluded_feature_everything_is_skipped.
 
 (* the same for a feature (its rules included) *)
 Theorem feature_without_selected_scenario_is_skipped :
@@ -81,8 +128,21 @@ Print Assumptions a_skipped_feature_contains_only_skipped_elements.
 Example effective_tags_inherit :
   let o := mkOutline 5 [1] [mkStep KPass 9] [mkEx 6 [2] 1; mkEx 7 [3] 1] in
   let f := mkFeature 1 [10] None [FRule (mkRule 2 [20] None [SOutline o])] in
-  let cfg t := config_of (mkCfgData false false true (THas t) [] [] [] 99 false) in
+  let cfg t := config_of (mkCfgData false false true (THas t) [] [] [] 99 false None) in
   sel_ids (cfg 2) [f] = [row_id 5 0 0] /\ sel_ids (cfg 3) [f] = [row_id 5 1 0] /\
   sel_ids (cfg 20) [f] = [row_id 5 0 0; row_id 5 1 0] /\ sel_ids (cfg 10) [f] = [row_id 5 0 0; row_id 5 1 0] /\
   sel_ids (cfg 4) [f] = [].
+Proof. vm_compute. repeat split. Qed.
+
+(* explicit exclusion: tag 9 is the exclusion tag; the scenario carrying it runs only when the
+   before_feature hook (which excludes) is not defined *)
+Example an_excluded_scenario_does_not_run :
+  let f := mkFeature 1 [] None [FItem (SScen (mkScen 2 [9] [mkStep KPass 5])); FItem (SScen (mkScen 3 [] [mkStep KPass 6]))] in
+  let cfg hooks := config_of (mkCfgData false false true TTrue hooks [] [] 99 false (Some 9)) in
+  sel_ids (cfg [HBeforeFeature]) [f] = [3] /\ sel_ids (cfg []) [f] = [2; 3] /\
+  (let '(_, _, _, evs) := run_model (cfg [HBeforeFeature]) [f] in
+   existsb (fun e => match e with EStep _ 5 _ _ => true | _ => false end) evs = false /\
+   existsb (fun e => match e with EStep _ 6 _ _ => true | _ => false end) evs = true) /\
+  (let '(_, _, _, evs) := run_model (cfg []) [f] in
+   existsb (fun e => match e with EStep _ 5 _ _ => true | _ => false end) evs = true).
 Proof. vm_compute. repeat split. Qed.
